@@ -62,7 +62,8 @@ where
     //      formatting write control.
     let mantissa = float.mantissa();
     let radix = format.mantissa_radix();
-    let (mantissa, mantissa_bits) = truncate_and_round(mantissa, radix, options);
+    let (mantissa, mantissa_bits) =
+        truncate_and_round_digits(mantissa, float.exponent(), radix, options);
 
     // See if we should use an exponent if the number was represented
     // in scientific notation, AKA, `I.FFFF^EEE`. If the exponent is above
@@ -762,4 +763,56 @@ where
     }
 
     (shifted_mantissa, mantissa_bits)
+}
+
+/// Round the mantissa to the maximum number of significant digits of the radix.
+///
+/// The digits are aligned to the binary exponent: the leading digit holds
+/// between 1 and `bits_per_digit` bits, so the bits we keep must end on a
+/// digit boundary. Unlike [`truncate_and_round`], the mantissa keeps its
+/// scale (the dropped bits are zeroed rather than shifted out), so `exp`
+/// still describes the returned mantissa. Also returns the number of bits
+/// of the mantissa.
+#[inline(always)]
+pub fn truncate_and_round_digits<M>(
+    mantissa: M,
+    exp: i32,
+    radix: u32,
+    options: &Options,
+) -> (M, usize)
+where
+    M: UnsignedInteger,
+{
+    let mut mantissa_bits = significant_bits(mantissa) as usize;
+    let max_digits = match options.max_significant_digits() {
+        Some(digits) => digits.get(),
+        None => return (mantissa, mantissa_bits),
+    };
+    let bits_per_digit = fast_log2(radix);
+    let sci_exp = exp + mantissa_bits as i32 - 1;
+    let leading_bits = sci_exp.rem_euclid(bits_per_digit) as usize + 1;
+    let max_bits =
+        leading_bits.saturating_add((max_digits - 1).saturating_mul(bits_per_digit as usize));
+    if max_bits >= mantissa_bits {
+        return (mantissa, mantissa_bits);
+    }
+
+    let shr = (mantissa_bits - max_bits) as i32;
+    let mut shifted_mantissa = mantissa >> shr;
+    if options.round_mode() == RoundMode::Round {
+        // Round-nearest, tie-even on the dropped bits.
+        let mask = (M::ONE << shr) - M::ONE;
+        let halfway = M::ONE << (shr - 1);
+        let above_halfway = (mantissa & mask) > halfway;
+        let is_halfway = (mantissa & mask) == halfway;
+        let is_odd = shifted_mantissa & M::ONE == M::ONE;
+
+        // Add 1 to the mantissa bits if we carry.
+        let initial_bits = shifted_mantissa.leading_zeros();
+        shifted_mantissa += as_cast((above_halfway || (is_odd & is_halfway)) as u32);
+        let final_bits = shifted_mantissa.leading_zeros();
+        mantissa_bits += (initial_bits - final_bits) as usize;
+    }
+
+    (shifted_mantissa << shr, mantissa_bits)
 }
